@@ -69,7 +69,7 @@ func (f *fleetGen) appOps(first bool) string {
 }
 
 // genFleetScript: a fleet of real sync loops on one bucket, single-stepped in a random schedule.
-func genFleetScript(g *Gen, n int, native bool, steps int, withFaults, withRestart bool) []string {
+func genFleetScript(g *Gen, n int, native bool, steps int, withFaults, withRestart, withCleaner bool) []string {
 	f := &fleetGen{r: g.R, native: native, started: map[string]bool{}}
 	f.lines = append(f.lines, "fleet.reset")
 	for i := 0; i < n; i++ {
@@ -94,13 +94,25 @@ func genFleetScript(g *Gen, n int, native bool, steps int, withFaults, withResta
 			if withFaults && f.r.Intn(6) == 0 {
 				fails = 1 + f.r.Intn(3)
 			}
-			f.lines = append(f.lines, fmt.Sprintf("loop.go %s ? %d %d", id, fails, f.now()), "prop.loop.check "+id)
+			if f.started[id] && f.r.Intn(6) == 0 {
+				// the application commits while the loop is already waiting for the write lock
+				f.lines = append(f.lines, fmt.Sprintf("loop.goheld %s ? %d %d %s", id, fails, f.now(), f.appOpsFor(id, !created[id])), "prop.loop.check "+id)
+				created[id] = true
+			} else {
+				f.lines = append(f.lines, fmt.Sprintf("loop.go %s ? %d %d", id, fails, f.now()), "prop.loop.check "+id)
+			}
 			f.started[id] = true
 		case x < 8:
 			f.lines = append(f.lines, fmt.Sprintf("loop.app %s %s", id, f.appOpsFor(id, !created[id])), "prop.loop.check "+id)
 			created[id] = true
 		case x < 9:
-			if f.started[id] {
+			if withCleaner && f.started[id] {
+				// the instance's cleaner runs (twice in a row now and then: a snapshot is only
+				// considered the second time it is seen)
+				for k := 0; k < 1+f.r.Intn(2); k++ {
+					f.lines = append(f.lines, fmt.Sprintf("loop.clean %s %d", id, f.now()), "prop.loop.check "+id)
+				}
+			} else if f.started[id] {
 				f.lines = append(f.lines, "loop.list "+id)
 			}
 		default:
@@ -138,7 +150,7 @@ func genLoopRestart(g *Gen, n int) {
 	for i := 0; i < count; i++ {
 		native := g.R.Intn(2) == 0
 		class := map[bool]string{true: "native", false: "shadow"}[native]
-		g.Emit("fleet-restart/"+class, genFleetScript(g, 2+g.R.Intn(2), native, 25+g.R.Intn(40), true, true)...)
+		g.Emit("fleet-restart/"+class, genFleetScript(g, 2+g.R.Intn(2), native, 25+g.R.Intn(40), true, true, i%2 == 0)...)
 	}
 }
 
@@ -150,7 +162,7 @@ func genLoop(g *Gen, n int) {
 	for i := 0; i < count; i++ {
 		native := g.R.Intn(2) == 0
 		class := map[bool]string{true: "native", false: "shadow"}[native]
-		g.Emit("fleet/"+class, genFleetScript(g, 1+g.R.Intn(3), native, 20+g.R.Intn(40), g.R.Intn(3) == 0, false)...)
+		g.Emit("fleet/"+class, genFleetScript(g, 1+g.R.Intn(3), native, 20+g.R.Intn(40), g.R.Intn(3) == 0, false, false)...)
 	}
 }
 
